@@ -19,7 +19,7 @@ tvars == <<cur>>
 TraceInit == cur = 1 /\ TLCSet(1, <<>>) /\ TLCSet(2, 0) /\ TLCSet(3, 0) /\ TLCSet(4, {})
 
 \* ---------------------------------------------------------------- judgements
-SESPath(cs) == [i \in 1..Len(cs.path) |-> IF cs.path[i].f = "slice" THEN WithOv(cs.path[i], StartEndStepIdx, MaxArrLen(cs.data))
+SESPath(cs) == [i \in 1..Len(cs.path) |-> IF cs.path[i].f = "slice" THEN WithOv(cs.path[i], StartEndStepIdx, MaxLenAll(cs.data))
                                           ELSE cs.path[i]]
 \* which struct-less fragment kinds the path applies to struct-shaped objects (only evaluated for struct representations)
 OnStruct(g) == \E q \in 1..Len(g.as) : g.as[q] \in {"struct/built", "pstruct/built", "estruct/built", "pestruct/built"}
@@ -47,10 +47,22 @@ ProbeDevs(cs) == IF ProbeBad(cs) = {} THEN <<>>
                                                IF SliceStrict(f, pn[2]) THEN "strict" ELSE "open", "probe">>]] >>
 
 KindOf(j) == CASE j = "extra" -> "selects-extra" [] j = "fewer" -> "selects-fewer" [] j = "order" -> "order" [] OTHER -> "wrong-selection"
+\* a group recorded on the representation whose objects are Keyed AND Indexed: judged against JsonPath!Locs2(.., TRUE)
+IsBoth(g) == \E q \in 1..Len(g.as) : g.as[q] = "both/built"
+\* which as-implemented struct reading (JsonPath!LocsX) applies to a group: only when every representation of the group holds
+\* the struct-shaped objects as Go structs of one family
+AllIn(g, S) == \A q \in 1..Len(g.as) : g.as[q] \in S
+SIOf(g) == IF AllIn(g, {"mstruct/built", "pmstruct/built"}) THEN "m" ELSE IF AllIn(g, {"struct/built", "pstruct/built"}) THEN "s" ELSE "none"
+SISel(cs, g, cls) == LocsX(cs.path, cs.data, [bi |-> FALSE, si |-> SIOf(g), cls |-> cls])
+DevSI(cs, g, ev, cls) == [sf |-> NoSF, i |-> cur, as |-> g.as, ev |-> ev, kind |-> "as-implemented", m |-> "",
+                          loc |-> [frag |-> "struct", pos |-> IF cls = "F" THEN "first-has-reading" ELSE "filter-reading", cont |-> "-", pre |-> "-", bound |-> <<"-">>]]
 GetDev(cs, g, res, ev, distinct) ==
   IF res.p THEN Abn(cs, g, ev, res)
-  ELSE LET j == JudgeGet(cs.path, cs.data, res.r, distinct) IN
-       IF j = "ok" THEN <<>> ELSE << Dev(cs, g, ev, KindOf(j), "") >>
+  ELSE LET j == IF IsBoth(g) THEN JudgeSel(Locs2(cs.path, cs.data, TRUE), cs.path, res.r, distinct)
+                ELSE JudgeGet(cs.path, cs.data, res.r, distinct) IN
+       IF j = "ok" THEN <<>>
+       ELSE IF SIOf(g) # "none" /\ JudgeSel(SISel(cs, g, "G"), cs.path, res.r, distinct) = "ok" THEN << DevSI(cs, g, ev, "G") >>
+       ELSE << Dev(cs, g, ev, KindOf(j), "") >>
 
 \* First / FirstFound / FirstNode: a member of the selection, the first one when the order is defined
 FirstOK(E, path, r) == IF E = <<>> THEN r = Null
@@ -58,28 +70,45 @@ FirstOK(E, path, r) == IF E = <<>> THEN r = Null
                        ELSE \E q \in 1..Len(E) : E[q].val = r
 FirstDev(cs, g, res, ev, E, needFound) ==
   IF res.p THEN Abn(cs, g, ev, res)
+  ELSE IF (~needFound \/ res.h = (E # <<>>)) /\ FirstOK(E, cs.path, res.r) THEN <<>>
+  ELSE IF SIOf(g) # "none" /\ (\E c \in {"F", "F1", "F0"} : LET F == SISel(cs, g, c) IN (~needFound \/ res.h = (F # <<>>)) /\ FirstOK(F, cs.path, res.r)) THEN << DevSI(cs, g, ev, "F") >>
   ELSE IF needFound /\ res.h # (E # <<>>) THEN << Dev(cs, g, ev, "wrong-found", "") >>
-  ELSE IF FirstOK(E, cs.path, res.r) THEN <<>> ELSE << Dev(cs, g, ev, "wrong-first", "") >>
+  ELSE << Dev(cs, g, ev, "wrong-first", "") >>
 
 HasDev(cs, g, res, E) ==
   IF res.p THEN Abn(cs, g, "Has", res)
-  ELSE IF res.h = (E # <<>>) THEN <<>> ELSE << Dev(cs, g, "Has", IF res.h THEN "has-without-match" ELSE "misses-match", "") >>
+  ELSE IF res.h = (E # <<>>) THEN <<>>
+  ELSE IF SIOf(g) # "none" /\ (\E c \in {"F", "F1", "F0"} : res.h = (SISel(cs, g, c) # <<>>)) THEN << DevSI(cs, g, "Has", "F") >>
+  ELSE << Dev(cs, g, "Has", IF res.h THEN "has-without-match" ELSE "misses-match", "") >>
 
 \* a reported normalised path resolved against the data (a negative index is still Normal())
-RECURSIVE ResolveR(_, _, _)
-ResolveR(n, steps, acc) ==
+(* m.bi: the data is held in collections that are Keyed and Indexed: an index step on an object names the member of that   *)
+(*       rank (its location is the key step).                                                                              *)
+(* m.st: the data is held in Go structs with the fields A, B, C tagged json a, b, c (struct, pstruct, estruct, pestruct):    *)
+(*       the child lookup of every evaluator finds a field by its Go name or its json tag, ignoring case (jp/get.go           *)
+(*       reflectGetStructFieldByNameOrJsonTag), so `$.A` is a normalised path whose individual Get yields the member a.     *)
+(*       The table is a fact about Go identifiers (case folding) that TLC cannot compute.                                  *)
+FieldAlias == [A |-> "a", B |-> "b", C |-> "c"]
+KeyOf(n, k, m) == IF HasKey(n, k) THEN k
+                  ELSE IF m.st /\ IsStructObj(n) /\ k \in DOMAIN FieldAlias /\ HasKey(n, FieldAlias[k]) THEN FieldAlias[k]
+                  ELSE ""
+RECURSIVE ResolveM(_, _, _, _)
+ResolveM(n, steps, acc, m) ==
   IF steps = <<>> THEN [ok |-> TRUE, loc |-> acc]
   ELSE LET s == Head(steps) IN
-       IF IsK(s) THEN (IF HasKey(n, s.k) THEN ResolveR(Member(n, s.k), Tail(steps), Append(acc, s)) ELSE [ok |-> FALSE, loc |-> acc])
-       ELSE IF InRange(s.i, n) THEN LET j == Norm(s.i, Len(n.a)) IN ResolveR(n.a[j + 1], Tail(steps), Append(acc, IStep(j)))
+       IF IsK(s) THEN LET k == KeyOf(n, s.k, m) IN
+                      (IF k # "" THEN ResolveM(Member(n, k), Tail(steps), Append(acc, KStep(k)), m) ELSE [ok |-> FALSE, loc |-> acc])
+       ELSE IF InRange(s.i, n) THEN LET j == Norm(s.i, Len(n.a)) IN ResolveM(n.a[j + 1], Tail(steps), Append(acc, IStep(j)), m)
+       ELSE IF m.bi /\ IsObj(n) /\ InRange(s.i, AsArr(n)) THEN LET j == Norm(s.i, Len(n.o)) IN ResolveM(n.o[j + 1], Tail(steps), Append(acc, KStep(n.k[j + 1])), m)
        ELSE [ok |-> FALSE, loc |-> acc]
+RMode(g) == [bi |-> IsBoth(g), st |-> OnStruct(g)]
 
 NDistinct(L) == Cardinality({q \in 1..Len(L) : ~\E p \in 1..(q - 1) : L[p] = L[q]})
-LocateOK(cs, res, max, E) ==
+LocateOK(cs, res, max, E, m) ==
   LET L == LocsOnly(E)
       \* the path reaches a location twice: a union listing an item twice, or [0,-1] on a one-element array
       dup == UnionDup(cs.path) \/ NDistinct(L) < Len(L)
-      R == [j \in 1..Len(res.r) |-> ResolveR(cs.data, res.r[j], <<>>)] IN
+      R == [j \in 1..Len(res.r) |-> ResolveM(cs.data, res.r[j], <<>>, m)] IN
   /\ res.n
   /\ \A j \in 1..Len(R) : R[j].ok /\ \E q \in 1..Len(L) : L[q] = R[j].loc
   /\ (dup \/ \A j1, j2 \in 1..Len(R) : j1 < j2 => R[j1].loc # R[j2].loc)
@@ -88,17 +117,18 @@ LocateOK(cs, res, max, E) ==
 (* Known defect C11-2 made precise: a Locate / Walk answer that is wrong is classified "as-implemented" (locus          *)
 (* slice/startEndStep-reading) only when it is EXACTLY what the path denotes if every slice is read with               *)
 (* JsonPath!StartEndStepIdx; any other wrong answer in the same cell is an ordinary deviation.                        *)
-ESes(cs) == Locs(SESPath(cs), cs.data)
+ESes(cs, g) == Locs2(SESPath(cs), cs.data, IsBoth(g))
 DevImpl(cs, g, ev) == [sf |-> NoSF, i |-> cur, as |-> g.as, ev |-> ev, kind |-> "as-implemented", m |-> "",
                        loc |-> [frag |-> "slice", pos |-> "startEndStep-reading", cont |-> "-", pre |-> "-", bound |-> <<"-">>]]
 LocateDev(cs, g, res, max, ev, E) ==
   IF res.p THEN Abn(cs, g, ev, res)
-  ELSE IF LocateOK(cs, res, max, E) THEN <<>>
-  ELSE IF HasSlice(cs.path) /\ LocateOK(cs, res, max, ESes(cs)) THEN << DevImpl(cs, g, ev) >>
+  ELSE IF LocateOK(cs, res, max, E, RMode(g)) THEN <<>>
+  ELSE IF HasSlice(cs.path) /\ LocateOK(cs, res, max, ESes(cs, g), RMode(g)) THEN << DevImpl(cs, g, ev) >>
+  ELSE IF SIOf(g) # "none" /\ LocateOK(cs, res, max, SISel(cs, g, "G"), RMode(g)) THEN << DevSI(cs, g, ev, "G") >>
   ELSE << Dev(cs, g, ev, "wrong-locations", "") >>
 
-WalkOK(cs, res, E) ==
-  LET R == [j \in 1..Len(res.r) |-> ResolveR(cs.data, res.r[j].path, <<>>)]
+WalkOK(cs, res, E, m) ==
+  LET R == [j \in 1..Len(res.r) |-> ResolveM(cs.data, res.r[j].path, <<>>, m)]
       RL == [j \in 1..Len(R) |-> R[j].loc] IN
   /\ res.n
   /\ \A j \in 1..Len(R) : R[j].ok
@@ -108,8 +138,9 @@ WalkOK(cs, res, E) ==
   /\ (SameBag(RL, LocsOnly(E)) \/ SameBag(RL, LocsOnly(Dedup(E))))    \* a location reached twice: with or without the repetition
 WalkDev(cs, g, res, E) ==
   IF res.p THEN Abn(cs, g, "Walk", res)
-  ELSE IF WalkOK(cs, res, E) THEN <<>>
-  ELSE IF HasSlice(cs.path) /\ WalkOK(cs, res, ESes(cs)) THEN << DevImpl(cs, g, "Walk") >>
+  ELSE IF WalkOK(cs, res, E, RMode(g)) THEN <<>>
+  ELSE IF HasSlice(cs.path) /\ WalkOK(cs, res, ESes(cs, g), RMode(g)) THEN << DevImpl(cs, g, "Walk") >>
+  ELSE IF SIOf(g) # "none" /\ WalkOK(cs, res, SISel(cs, g, "G"), RMode(g)) THEN << DevSI(cs, g, "Walk", "G") >>
   ELSE << Dev(cs, g, "Walk", "wrong-callbacks", "") >>
 
 JudgeC05(cs) ==
@@ -119,8 +150,10 @@ JudgeC05(cs) ==
 JudgeC11(cs) ==
   IF EndsDesc(cs.path) THEN <<>>     \* C11 quantifies over paths not ending in a bare descent
   ELSE LET distinct == Distinct(cs.data)
-           E == Locs(cs.path, cs.data) IN
+           E1 == Locs(cs.path, cs.data)
+           E2 == Locs2(cs.path, cs.data, TRUE) IN
        FlatMap(LAMBDA g :
+                LET E == IF IsBoth(g) THEN E2 ELSE E1 IN
                  GetDev(cs, g, g.get, "Get", distinct)
                  \o FirstDev(cs, g, g.first, "First", E, FALSE)
                  \o FirstDev(cs, g, g.ff, "FirstFound", E, TRUE)
